@@ -2,10 +2,18 @@
 from common import *  # noqa
 import dbtie
 
-PROFILE = {'scenario_pref': ['same_row_twice', 'getter_memo', 'carriers', 'handle_times'], 'p_write': 0.35, 'getter_bias': 0.8}
+PROFILE = {'scenario_pref': ['epoch', 'same_row_twice', 'getter_memo', 'carriers', 'handle_times'], 'p_write': 0.35, 'getter_bias': 0.8}
+
+
+def kwargs_for(h):
+    """as in every database-level tie, with more histories whose inserts stay in the handle's buffer (flush_on_insert=False): a length or a
+    getter asked first after such an insert must already count it"""
+    if h % 4 in (2, 3) and h % 12 in (6, 11):
+        return {"flush_on_insert": False}
+    return dbtie.default_kwargs_for(h)
 
 
 def main(tier, seed):
     return dbtie.db_check("C07", tier, seed, PROFILE, 650, 6000, "Prop_C07",
-                          "user callables and re are an environment the theorems quantify over; the tie instantiates them with the twin table")
+                          "user callables and re are an environment the theorems quantify over; the tie instantiates them with the twin table", kwargs_for=kwargs_for)
 
